@@ -83,15 +83,15 @@ let run line =
              | 'l' -> (match parse_arg body with
                        | bs, Some l, f -> OpSetLen (bs, l), f | _ -> failwith "str step l")
              | 'z' -> let bs, _, f = parse_arg body in OpSet (bs @ [Z0]), f
-             | 'o' | 's' ->
+             | 'o' | 's' | 'O' | 'S' ->
                (* own-buffer source: o<off>,<len>[!k]  /  s<off>[!k] *)
                let body, f = match String.index_opt body '!' with
                  | Some i -> String.sub body 0 i,
                              Some (int_of_string (String.sub body (i+1) (String.length body - i - 1)))
                  | None -> body, None in
                (match tok.[0], String.split_on_char ',' body with
-                | 'o', [off; l] -> OpSetOwnLen (z_of_string off, z_of_string l), f
-                | 's', [off] -> OpSetOwn (z_of_string off), f
+                | ('o' | 'O'), [off; l] -> OpSetOwnLen (z_of_string off, z_of_string l), f
+                | ('s' | 'S'), [off] -> OpSetOwn (z_of_string off), f
                 | _ -> failwith "str step own")
              | _ -> failwith "str step" in
            let al = alloc_for !s.reqs fault in
